@@ -51,7 +51,9 @@ def cases(draw, max_leaves):
             "ub": draw(st.booleans()), "su": draw(st.booleans()), "cb": draw(st.booleans()),
             "asc": draw(st.booleans()), "seed": draw(st.integers(0, 2 ** 31)), "encode_first": draw(st.booleans()),
             # a tree may carry a length on the edge subtending its seed ("(...):0.5;"): it belongs to the total length
-            "root_len": draw(st.sampled_from([None, None, None, 0.5, 2.0, 0.0]))}
+            "root_len": draw(st.sampled_from([None, None, None, 0.5, 2.0, 0.0])),
+            # internal nodes / the seed may carry taxa of their own; the clauses speak about leaf taxa
+            "inner": draw(shapes.inner_taxa_picks())}
 
 
 @st.composite
@@ -81,6 +83,12 @@ def check_case(ctx, case):
     if case.get("root_len") is not None:
         tree.seed_node.edge.length = case["root_len"]
         ctx.cls("seed_edge_has_length")
+    if shapes.add_inner_taxa(tree, ns, case.get("inner")):
+        ctx.cls("taxon_on_internal_node")
+        if len(tree.seed_node._child_nodes) == 1:
+            # a seed with a single child that carries a taxon is a tip in all but name (it becomes a leaf as soon as
+            # the tree is re-seeded elsewhere): not an internal node in the sense of the statement
+            tree.seed_node.taxon = None
     pre, problems = snapshot(tree)
     if problems:
         raise runner.HarnessError("built tree not well formed: %r" % problems)
